@@ -10,7 +10,7 @@ for d in sorted(glob.glob('/verif/seeded/C*/meta.json')):
     if need.startswith('see agent_notes'): need = '(see seeded/%s/agent_notes.md)' % x['seed_id']
     o = x['check_outcome']
     if 'CAUGHT' in o or o.startswith('caught'): c += 1
-    elif o.startswith('UNDECIDED'): u += 1
+    elif o.startswith('UNDECIDED') or '; UNDECIDED (exit 2' in o: u += 1      # the latest outcome counts
     else: m += 1
     rows.append('| %s | %s | %s |' % (x['seed_id'], need.replace('|', '/')[:160], o.replace('|', '/')[:220]))
 s = s[:i] + head + '\n'.join(rows) + '\n'
